@@ -55,6 +55,8 @@ fail_arr:
 	return SQFS_ERROR_ALLOC;
 }
 
+static str_bucket_t *bucket_by_index(const str_table_t *table, size_t index);
+
 int str_table_copy(str_table_t *dst, const str_table_t *src)
 {
 	str_bucket_t *bucket, **array;
@@ -75,7 +77,20 @@ int str_table_copy(str_table_t *dst, const str_table_t *src)
 	hash_table_foreach(dst->ht, ent) {
 		bucket = alloc_flex(sizeof(*bucket), 1, strlen(ent->key) + 1);
 		if (bucket == NULL) {
-			str_table_cleanup(dst);
+			/*
+			 * Entries we did not get to yet still point at the
+			 * buckets of the source table, only free our own.
+			 */
+			hash_table_foreach(dst->ht, it) {
+				str_bucket_t *b = it->data;
+
+				if (b != bucket_by_index(src, b->index))
+					free(b);
+			}
+
+			hash_table_destroy(dst->ht, NULL);
+			array_cleanup(&dst->bucket_ptrs);
+			memset(dst, 0, sizeof(*dst));
 			return SQFS_ERROR_ALLOC;
 		}
 
